@@ -25,7 +25,7 @@ for pid in ALL:
         "evidence_file": f"evidence/{pid}.json",
         "replay_cmd_template": f"./check {pid} --replay {{path}}",
         "engine": "lean4-model+correspondence",
-        "level_claimed": {"category": "proof", "text": mod.LEVEL_TEXT, "design_ref": f"DESIGN.md section 7 ({pid})"},
+        "level_claimed": {"category": "proof", "text": mod.LEVEL_TEXT + (" " + mod.LEVEL_ADDENDUM if getattr(mod, "LEVEL_ADDENDUM", "") else ""), "design_ref": f"DESIGN.md section 7 ({pid})"},
         "level_note": mod.LEVEL_NOTE,
         "technique": mod.TECHNIQUE,
     })
